@@ -24,6 +24,9 @@ def occurrence(kind):
     return ListV([Const(kind), args], "tuple"), args, DictV([])
 
 
+RAISES = object()  # filter_value: the trigger's expression raises when it is evaluated
+
+
 def watch_occurrence(program, kind, filter_value=None, active_value=None, user_kwargs=None, heap_over=None):
     """Deliver one occurrence of ``kind`` to trigger_watch.
 
@@ -61,7 +64,11 @@ def watch_occurrence(program, kind, filter_value=None, active_value=None, user_k
     def call_expr(interp, node, a, k, cfg, out):
         # the trigger's own expression (the scenario object `fexpr`) asked for its value: recorded as (expression, values)
         lst = cfg.heap.get("$filter", ListV(()))
-        return [(cfg.hset("$filter", ListV(lst.items + (ListV((ObjV("fexpr", "AstEval"), *a), "tuple"),))), Const(filter_value))]
+        cfg = cfg.hset("$filter", ListV(lst.items + (ListV((ObjV("fexpr", "AstEval"), *a), "tuple"),)))
+        if filter_value is RAISES:
+            out.add("raise", cfg.set("$exc", ExcV("ZeroDivisionError", "the trigger's own expression")))
+            return []
+        return [(cfg, Const(filter_value))]
 
     def dtnow(interp, node, a, k, cfg, out):
         return [(cfg, Const(__import__("datetime").datetime(2024, 1, 1, 12, 0, cfg.heap.get("$got", Const(0)).v)))]
